@@ -213,6 +213,9 @@ class TileManager(object):
             for created_tile in created_tiles:
                 if created_tile.coord in tiles:
                     tiles[created_tile.coord].source = created_tile.source
+                    if not created_tile.cacheable:
+                        # tiles created from a meta tile are new Tile objects
+                        tiles[created_tile.coord].cacheable = False
 
         return tiles
 
